@@ -70,6 +70,32 @@ def recursive_rules(repo):
             return [("index >= 0 (a negative index wraps to the end)", e), ("index <= l - 1", L - e - 1)]
         out.append(decide_states(ai, fi, stmt, mk, "R-GUARD", role))
 
+    # construction of the cumulative sum
+    role = "X_csum[i, j] is the inclusive prefix sum of example i (csum[i,0] = X[i,0]; csum[i,j] = csum[i,j-1] + X[i,j] for all i, 1 <= j < l)"
+    outer = [n_ for n_ in fi.node.body if isinstance(n_, ast.For) and any(isinstance(x, ast.Assign) and unparse(x.targets[0]).startswith("X_csum[") for x in ast.walk(n_))]
+    if not outer:
+        out.append(unrecognised("CSUM", fi, role, "construction loop not found"))
+    else:
+        o = outer[0]
+        body = [unparse(x) for x in o.body]
+        inner = [x for x in o.body if isinstance(x, ast.For)]
+        iv = o.target.id if isinstance(o.target, ast.Name) else "?"
+        ok = unparse(o.iter) == "range(n)" and body[:1] == ["X_csum[%s, 0] = X[%s, 0]" % (iv, iv)] and len(inner) == 1 and \
+            unparse(inner[0].iter) == "range(1, l)" and [unparse(x) for x in inner[0].body] == [
+                "X_csum[%s, %s] = X_csum[%s, %s - 1] + X[%s, %s]" % (iv, inner[0].target.id, iv, inner[0].target.id, iv, inner[0].target.id)]
+        alt = len(inner) == 1 and [unparse(x) for x in inner[0].body] == [
+            "X_csum[%s, %s] = X[%s, %s] + X_csum[%s, %s - 1]" % (iv, inner[0].target.id, iv, inner[0].target.id, iv, inner[0].target.id)]
+        if ok or (alt and unparse(o.iter) == "range(n)" and unparse(inner[0].iter) == "range(1, l)"):
+            out.append(holds("CSUM", fi, role, "; ".join(body[:1] + [unparse(x) for x in inner[0].body]), o))
+        elif inner and unparse(inner[0].iter) != "range(1, l)":
+            out.append(violation("CSUM", fi, role, "prefix sums are built over `%s`, not range(1, l)" % unparse(inner[0].iter), inner[0]))
+        elif unparse(o.iter) != "range(n)":
+            out.append(violation("CSUM", fi, role, "prefix sums are built for `%s`, not every example" % unparse(o.iter), o))
+        elif inner and any(" - X[" in unparse(x) or "X_csum[%s, %s]" % (iv, inner[0].target.id) in unparse(x.value) for x in inner[0].body if isinstance(x, ast.Assign)):
+            out.append(violation("CSUM", fi, role, "recurrence is `%s`" % unparse(inner[0].body[0]), inner[0]))
+        else:
+            out.append(unrecognised("CSUM", fi, role, "; ".join(body)[:160], o))
+
     # the reported attribution
     role = "reported attribution = csum[end-1] - (csum[start-1] if start >= 1 else 0)"
     app = [n for n in walk_no_nested(fi.node) if isinstance(n, ast.Call) and unparse(n.func) == "seqlets.append"]
